@@ -327,10 +327,16 @@ func OpenRelation(dbName string, forceWALSync bool) (*RelationService, error) {
 	}
 	verifPoint("store.open", 0)
 	if err := fs.open(); err != nil {
+		fs.file.Close()
 		return nil, err
 	}
 	wal, err := newWal(dbName, forceWALSync)
 	if err != nil {
+		// nothing is returned to the caller: stop the page flusher that open()
+		// started and let go of the data file, or the forgotten store keeps
+		// writing its header into the file
+		fs.stopFlusher()
+		fs.file.Close()
 		return nil, err
 	}
 	return &RelationService{
